@@ -226,12 +226,16 @@ def _analyze(template: Template, *, include_partials: bool) -> TemplateAnalysis:
 
             partial_scope.pop()
         else:
+            unscoped = list(node.unscoped_children())
             scope.push(set(node.block_scope()))
             for child in node.children(
                 static_context, include_partials=include_partials
             ):
-                _visit(child, template_name, scope)
+                if not any(child is c for c in unscoped):
+                    _visit(child, template_name, scope)
             scope.pop()
+            for child in unscoped:
+                _visit(child, template_name, scope)
 
     for node in template.nodes:
         _visit(node, template.name, root_scope)
@@ -325,12 +329,16 @@ async def _analyze_async(
 
             partial_scope.pop()
         else:
+            unscoped = list(node.unscoped_children())
             scope.push(set(node.block_scope()))
             for child in await node.children_async(
                 static_context, include_partials=include_partials
             ):
-                await _visit(child, template_name, scope)
+                if not any(child is c for c in unscoped):
+                    await _visit(child, template_name, scope)
             scope.pop()
+            for child in unscoped:
+                await _visit(child, template_name, scope)
 
     for node in template.nodes:
         await _visit(node, template.name, root_scope)
